@@ -11,6 +11,7 @@ from engine import pat
 from engine.util import own_nodes, calls_with_nodes, where
 
 RULES = {
+    "R-09.5": "skipping an ignored (out-of-zone) line terminates at end of input as well as at end of line: token loops of the zone reader leave on EOF (shared with C04 R-04.6)",
     "R-09.4": "character-strings written by the zone writer are read back octet for octet: the \\DDD escape is written and read with 3 digits and accepted up to 255 (C05 R-05.2 adopted)",
     "R-09.1": "the zone writer never raises for a style that keeps all information: the generic (\\#) path encodes with the style's origin, the writer functions contain no explicit raise, and every boolean style knob only selects between two total formatting branches",
     "R-09.2": "an owner name read from the zone file reaches txn.add only through the `is_subdomain(zone_origin)` test; the out-of-zone arm eats the line and returns without any effect",
@@ -168,6 +169,8 @@ def run(model, rep, tier):
               "R-09.3", nk.qualname, where(nk, nk.node), "classification: CNAME / neutral (NSEC, NSEC3, KEY and their signatures) / regular", "node-kind classification changed", stmt="classify")
     rep.assume("equality of the re-read zone and agreement of equivalent spellings are behavioural and are not decided here")
     rep.share(model, "C05", {"R-05.2"}, "R-09.4", "zone text is written with dns.rdata._escapify and read with Token.unescape_to_bytes")
+    from rules.common import token_loops_end_at_eof
+    token_loops_end_at_eof(model, rep, "R-09.5")
     rep.meta["explanation"] = (
         "Three narrow structural clauses: the generic-syntax path encodes with the style's origin and the writer functions cannot raise; a taint-style gate analysis of the owner name in "
         "_rr_line/_generate_line (reachability with the in-zone edge removed, caller-supplied force_name exempt); and who-may-call / must-pass-through for the CNAME-exclusivity hook. "
@@ -175,6 +178,8 @@ def run(model, rep, tier):
 
 
 WITNESSES = [
+    {"id": "c09-eat-line-spins-at-eof", "rule": "R-09.5", "file": "dns/zonefile.py", "expect": "fires",
+     "old": "            token = self.tok.get()\n            if token.is_eol_or_eof():\n                break", "new": "            token = self.tok.get()\n            if token.is_eol():\n                break"},
     {"id": "c09-generate-relativizes-to-current-origin", "rule": "R-09.2", "file": "dns/zonefile.py", "expect": "fires",
      "old": "                self._eat_line()\n                return\n            if self.relativize:\n                name = name.relativize(self.zone_origin)\n\n            try:", "new": "                self._eat_line()\n                return\n            if self.relativize:\n                name = name.relativize(self.current_origin)\n\n            try:"},
     {"id": "c09-dedup-flag-without-print", "rule": "R-09.1", "file": "dns/node.py", "expect": "fires",
